@@ -45,14 +45,28 @@ def routing_families(prop, tier, seed, mc):
         plans.append({'class': 'server_plan', 'reg': r['reg'], 'plan': plan, 'path': r['path'], 'via': 'server'})
         if not r['dispatches'] and len(plans) % 4 == 1:
             plans[-1]['body'] = 'open'
-    return [('routing_table', stims), ('server_plans', plans)]
+    # the long-named service (method paths of 63, 64, 65, 128, 129 and 300 bytes) alone and next to a.S: its own table, all of it
+    lrows, lst = core.tlc_export('MC_Routing', 'MC_Routing_long.cfg', workers=1, timeout=900, name='MC_Routing_long')
+    if lst.get('distinct', 0) != len(lrows):
+        raise core.ToolError('MC_Routing_long: table export incomplete or TableOK violated')
+    mc.append(lst)
+    longs = []
+    for i, r in enumerate(lrows):
+        st = {'class': 'long_names', 'reg': r['reg'], 'path': r['path'], 'via': ('builder', 'routes', 'server')[i % 3]}
+        if st['via'] == 'server':
+            if not r['reg']:
+                st['via'] = 'routes'
+            else:
+                st['plan'] = [{'name': n, 'how': 'add'} for n in r['reg']]
+        longs.append(st)
+    return [('routing_table', stims), ('server_plans', plans), ('long_names', longs)]
 
 
 CONF['C10'] = dict(lab='routing', trace='Trace_Routing', gens=[], extra=routing_families,
                    assumptions=['five generated services (a.S, a.S2, S, a.b.S, a.s) x three methods stand for all name shapes: shared prefixes, no package, nested package, case variants',
                                 'every subset is registered in up to three orders (ascending, descending, rotated), through Routes::add_service and RoutesBuilder, and (sampled) through Server::add_service / add_optional_service(Some | None) served to a bare h2 client',
                                 'paths that http::Uri refuses to parse never reach tonic and are counted, not judged'],
-                   checker='tlc MC_Routing.cfg (22 644-point table); vh routing; tlc Trace_Routing.cfg')
+                   checker='tlc MC_Routing.cfg (27 084-point table); vh routing; tlc Trace_Routing.cfg')
 
 
 CONF['C20'] = dict(lab='richerr', trace='Trace_RichErr', gens=[('richerr', 0)],
